@@ -196,6 +196,64 @@ def check(model, rep, tier):
             'Scope.referenced reads a stored attribute instead of the live sets',
             {'attributes': sorted({c.attr for c in cached})}, line=ref.node.lineno)
 
+  # ---------------------------------------------------------------- the three
+  # sites that reserve against something other than a scope (RESERVED_EXCEPTIONS)
+  # each rely on one more fact; these are checked here
+  from sa import family
+  csf = model.func('malt/converters/control_flow.py',
+                   'ControlFlowTransformer._create_state_functions')
+  bvp = csf.params()[0]
+  ok = False
+  facts_ = {}
+  for c in ast.walk(csf.node):
+    if isinstance(c, ast.Call) and isinstance(c.func, ast.Attribute) and \
+        c.func.attr == 'new_symbol' and len(c.args) == 2:
+      uf = family.union_family(csf, c.args[1], c)
+      facts_ = {'reserved': core.norm(c.args[1])[:80], 'as_union': uf}
+      ok = uf == (bvp, 'N.support_set')
+  rep.check(ok, 'HYG-SUPPORT', '%s:setter-parameter-reserved-against-supports' % csf.site,
+            'the setter parameter shares its scope with every plain name that '
+            'occurs in a state variable (self in self.x, d and k in d[k]): it '
+            'must be reserved against the union of their support sets; the '
+            'composite names themselves reserve nothing (new_symbol only looks '
+            'at the name parts of simple names)', facts_, line=csf.node.lineno,
+            witness='a user variable vars_ that occurs only as vars_.total = ... in an if')
+  tfn = model.func('malt/pyct/transpiler.py', 'GenericTranspiler.transform_function')
+  ok = False
+  for c in ast.walk(tfn.node):
+    if isinstance(c, ast.Call) and isinstance(c.func, ast.Attribute) and \
+        c.func.attr == 'new_symbol' and c.args:
+      root = tpl.expand(tfn, c.args[0], c)
+      ok = isinstance(root, ast.Call) and core.norm(root.func) == 'self.get_transformed_name'
+  api_gtn = model.func('malt/impl/api.py', 'PyToPy.get_transformed_name')
+  rets_ = [r for r in ast.walk(api_gtn.node) if isinstance(r, ast.Return)]
+  ok2 = len(rets_) == 1 and isinstance(rets_[0].value, ast.BinOp) and isinstance(
+      rets_[0].value.left, ast.Constant) and str(rets_[0].value.left.value).startswith('ag__')
+  rep.check(ok and ok2, 'HYG-RESERVED', '%s:entity-name-through-the-hook' % tfn.site,
+            'the emitted function is named through the overridable '
+            'get_transformed_name hook, which prefixes ag__: under its own name '
+            'the generated def captures every use of that name in its body '
+            '(a method called like a builtin it calls)',
+            {'hook_used': ok, 'prefixing_override': ok2}, line=tfn.node.lineno,
+            witness='def max(self, floor): ... max(self.values)')
+  gns = model.func('malt/pyct/inspect_utils.py', 'getnamespace')
+  gp = gns.params()[0]
+  rets_ = [r for r in ast.walk(gns.node) if isinstance(r, ast.Return)]
+  ok = False
+  if len(rets_) == 1 and isinstance(rets_[0].value, ast.Name):
+    nsn = rets_[0].value.id
+    inits = [a for a in ast.walk(gns.node) if isinstance(a, ast.Assign) and
+             core.norm(a.targets[0]) == nsn]
+    ok = len(inits) == 1 and core.norm(inits[0].value) in (
+        'dict(%s.__globals__)' % gp, '%s.__globals__.copy()' % gp,
+        '{**%s.__globals__}' % gp)
+  rep.check(ok, 'HYG-RESERVED', '%s:all-globals' % gns.site,
+            'the namespace the Namer avoids must contain *every* global of the '
+            'function: names read only from nested lambdas / defs are not in '
+            'the function\'s own co_names, and the factory names are generated '
+            'with an empty reserved set', line=gns.node.lineno,
+            witness='a global called inner_factory read only inside a nested lambda')
+
   # ---------------------------------------------------------------- HYG-NAMER
   ns = model.func(NAMING, 'Namer.new_symbol')
   loops = [s for s in ns.node.body if isinstance(s, ast.While)]
